@@ -216,7 +216,11 @@ def run(ctx):
         buf = io.BytesIO(); doc.write(buf); buf.seek(0)
         d2 = load(buf)
         ps = d2.getElementsByType(text.P)
-        for s, p in zip(part, ps):
+        for s, p, p0 in zip(part, ps, doc.getElementsByType(text.P)):
+            # correspondence: the children load() returns = the model's `reparse` of the children that were saved
+            # (C17_reparse_fixpoint says these are the inserted nodes themselves)
+            if len(s) <= 64 and not any(XC_.discouraged(ord(c)) for c in s):
+                ctx.corr('save+load children (reparse)', s, d.call('tt_reparse', vlib.sx_show(canon_children(p0))), canon_children(p))
             ctx.oracle_cases += 1
             got = teletype.extractText(p)
             if got != s:
@@ -226,6 +230,54 @@ def run(ctx):
                     ctx.violation('saved-roundtrip', s, got, s, {'chars': sorted(set(s) & set('\r\t\n'))})
         if len(ps) != len(part):
             ctx.violation('saved-roundtrip', part, len(ps), len(part), {})
+    reparse_trees(ctx, d)
+
+def reparse_trees(ctx, d):
+    """correspondence of `reparse` on arbitrary child trees (text nodes side by side, empty ones, CDATA sections,
+    nested elements) with what save() + load() really return, and the oracle of C17_saved on the reloaded element"""
+    from odf import text, teletype
+    from odf.opendocument import OpenDocumentText, load
+    from . import xmlcommon as XC_
+    def clean(t):
+        out = []
+        for n in t:
+            if isinstance(n, list) and n[0] in ('T', 'C'):
+                cps = [c if not XC_.discouraged(int(c)) and int(c) != 13 else '122' for c in n[1]]
+                if n[0] == 'T' and ctx.rng.random() < 0.15: cps = []
+                out.append([n[0], cps])
+            elif isinstance(n, list) and n[0] == 'E': out.append(['E'] + clean(n[1:]))
+            else: out.append(n)
+        return out
+    def has_cdata(t):
+        return any(isinstance(n, list) and (n[0] == 'C' or (n[0] == 'E' and has_cdata(n[1:]))) for n in t)
+    directed = [[['T', ['97']], ['T', ['32']], ['T', ['32', '98']]], [['T', []]], [['T', []], ['T', []]], [['C', ['32']], ['T', ['32']]],
+                [['E', ['T', []], ['T', ['98']]], ['T', ['99']]], [['T', ['97', '32']], ['C', []], ['T', ['32', '98']]], [['E'], ['E', ['C', ['60']]]]]
+    trees = directed + [clean(rand_tree(ctx.rng)) for _ in range(150 if ctx.quick else 1500)]
+    for chunk in range(0, len(trees), 50):
+        part = trees[chunk:chunk + 50]
+        doc = OpenDocumentText(); strs = []
+        for t in part:
+            p = text.P(); build_tree(t, p)
+            s = rand_string(ctx.rng, 9)
+            s = ''.join(c for c in s if not XC_.discouraged(ord(c)) and c != '\r')
+            teletype.addTextToElement(p, s); strs.append(s); doc.text.addElement(p)
+        buf = io.BytesIO(); doc.write(buf); buf.seek(0)
+        d2 = load(buf)
+        ps = d2.getElementsByType(text.P); ps0 = doc.getElementsByType(text.P)
+        if len(ps) != len(part):
+            ctx.violation('saved-roundtrip', part, len(ps), len(part), {}); continue
+        for t, s, p0, p in zip(part, strs, ps0, ps):
+            before = canon_children(p0)
+            ctx.corr('save+load children (reparse)', before, d.call('tt_reparse', vlib.sx_show(before)), canon_children(p))
+            ctx.bump('reparse:cdata' if has_cdata(t) else 'reparse:no-cdata')
+            if not has_cdata(t):
+                p1 = text.P(); build_tree(t, p1)
+                want = teletype.extractText(p1) + s
+                ctx.oracle_cases += 1
+                got = teletype.extractText(p)
+                if got != want:
+                    ctx.violation('saved-roundtrip-after-children', {'tree': t, 's': s}, got, want, {})
+                ctx.nt(('reparse', repr(t), s))
 
 def canon_children_of(s):
     from odf import text, teletype
